@@ -83,15 +83,16 @@ def _check_schema(file_to_be_checked, state_manager):
 
     # load aas xml schema
     aas_xml_schema = etree.XMLSchema(file=XML_SCHEMA_FILE)
-    parser = etree.XMLParser(schema=aas_xml_schema)
 
     state_manager.add_step('Validate file against official xml schema')
-    # validate given file against schema
+    # validate given file against schema: the parsed tree is validated, because validating while parsing crashes libxml2
+    # (segmentation fault) on a document that references an entity of its internal DTD subset
     try:
         file_to_be_checked.seek(0)  # Reset reading file offset (cursor) to the beginning of the file
         with file_to_be_checked:
-            etree.parse(file_to_be_checked, parser=parser)
-    except etree.ParseError as error:
+            tree = etree.parse(file_to_be_checked)
+        aas_xml_schema.assertValid(tree)
+    except (etree.ParseError, etree.DocumentInvalid) as error:
         state_manager.set_step_status(Status.FAILED)
         logger.error(error)
         return
